@@ -11,6 +11,7 @@ import (
 	"sort"
 	"strings"
 	"sync"
+	"time"
 
 	"github.com/modernizing/coca/pkg/application/analysis/javaapp"
 	"github.com/modernizing/coca/pkg/domain/core_domain"
@@ -69,6 +70,11 @@ var Check = &run.Check{
 	},
 	Run:        runCase,
 	MaxSamples: 4,
+	// termination clause: a case that exceeds 90 s in the worker is re-run alone for up to 180 s; if it is then still
+	// running after >= 75 s of CPU time (cases need well under a second, see cases_taking_*), it is reported as
+	// no-termination with the stacks of the goroutines inside coca; otherwise the watchdog firing is inconclusive
+	CaseWatchdog: 90 * time.Second,
+	HangCPU:      75 * time.Second,
 }
 
 var gcOnce sync.Once
@@ -208,6 +214,24 @@ func filter(c *run.Ctx, o *run.Outcome, f *javawide.File, original string) *java
 func runCase(c *run.Ctx, o *run.Outcome) {
 	gcOnce.Do(func() { debug.SetGCPercent(150) })
 	Housekeeping()
+	// how long the cases of this run took (wall clock, in the worker): the margin of the termination verdict below
+	t0 := time.Now()
+	defer func() {
+		d := time.Since(t0).Seconds()
+		b := "<1s"
+		switch {
+		case d >= 60:
+			b = ">=60s"
+		case d >= 20:
+			b = "<60s"
+		case d >= 5:
+			b = "<20s"
+		case d >= 1:
+			b = "<5s"
+		}
+		o.Seen("case_wall_time_buckets", b)
+		o.Count("cases_taking_"+b, 1)
+	}()
 	f := unusual(c, o)
 	if f == nil {
 		return
